@@ -211,6 +211,130 @@ PROPS['C20'] = {
     ],
 }
 
+TABLE_FNS = ['ClaimTable::new', 'ClaimTable::cache', 'ClaimTable::set_claims', 'ClaimTable::remove_claims', 'ClaimTable::lookup', 'ClaimTable::housekeep', 'lemma_.*']
+TABLE_TRUSTED = [
+    'vstd HashMap model with builds_valid_hashers::<BuildHasherDefault<FnvHasher>>() and obeys_key_model::<Address>() as axioms (sound for canonical addresses, which the dissectors produce: C19 harnesses assert the zero tail)',
+    'the clock is in [1, 2^48) and does not advance within one ClaimTable operation',
+    'R6: RangeList = SmallVec<[Range;4]> modelled by Vec<Range>',
+    'R5 pinned statements: `self.cache.retain(|_, v| v.timeout >= now)` and the two `for entry in self.cache.values_mut()` loops are replaced by contract-only calls (their text is pinned: any edit => undecided)',
+    'std contracts written in the unit: Vec::retain (verdict sequence), slice::Iter::position, SocketAddr ==, cmp::min; Range/Address == as field-wise/prefix equality (Address::eq proved by Kani harness address_eq_is_prefix_equality)',
+    'Range::matches is used through its contract r == range_contains (proved for all inputs by Kani harness range_matches_is_prefix_match)',
+]
+PROPS['C12'] = {
+    'level': 'proof',
+    'verus': [{'unit': 'table', 'fns': TABLE_FNS}],
+    'native_search': {'table::ClaimTable::set_claims': {'file': 'native/table_setclaims.rs', 'attach': 'src/table.rs', 'test': 'claims_equal_last_announcement'},
+                      r'table::.*': TABLE_MODEL},
+    'trusted': TABLE_TRUSTED,
+    'not_decided': [
+        'node level: "when a peer is removed for any reason no claim keeps pointing at it" needs GenericCloud::{housekeep, remove_peer, crypto_housekeep, add_new_peer} (HashMap iteration, sockets, handshake objects): crypto_housekeep removes a peer without remove_claims - reading only, no obligation stated',
+        'duplicates and order of the claim list are not part of the contract (set semantics)',
+    ],
+}
+
+PROPS['C08'] = {
+    'level': 'proof',
+    'level_text': 'Proof for the per-peer receive path: MsgBuffer, CryptoCore::decrypt/encrypt (buffer geometry) and PeerCrypto::{handle_message, decrypt_message, encrypt_message, send_message} verbatim in Verus: for EVERY well-formed buffer (any length incl. 0, any content) and every state of the peer object every callee precondition (index bounds, arithmetic, assert!) is established, i.e. no panic. The variable-length decoders behind the handshake marker (InitMsg::read_from, NodeInfo::decode, RotationMessage) are NOT decided.',
+    'verus': [{'unit': 'buffer'}, {'unit': 'cloud', 'fns': ['GenericCloud::handle_net_message', 'GenericCloud::handle_message']}],
+    'kani': {
+        'files': {'src/crypto/core.rs': ['kani/coreblocks.rs.in', 'kani/core.rs']},
+        'harnesses': [
+            K(CORE, 'decrypt_with_key_contract', 'a datagram that fails verification (too old, or rejected by the AEAD) leaves no state behind in the key slot: min/next/seen/send counters unchanged', fns=['crypto::core::CryptoCore::decrypt_with_key']),
+            H_DEC,
+        ],
+    },
+    'native_search': {'buffer::CryptoCore::decrypt': {'file': 'native/core_short_datagram.rs', 'attach': 'src/crypto/core.rs', 'test': 'decrypt_is_total_on_short_datagrams'},
+                      r'kani::core::decrypt_with_key_contract': WINDOW_DRV,
+                      'kani::coreblocks::decrypt_block_contract': {'file': 'native/core_keyid.rs', 'attach': 'src/crypto/core.rs', 'test': 'altered_key_id_is_rejected'}},
+    'trusted': [
+        'env (NOT decided): PeerCrypto::handle_init_message -> InitState::handle_init -> InitMsg::read_from is assumed total on every well-formed buffer (150-line TLV parser over Cursor/SmallVec; neither back end reaches it)',
+        'env: PeerCrypto::handle_rotate_message / RotationMessage parsing is reached only after the AEAD opened the datagram, i.e. not by an outsider',
+        'the header/AEAD blocks inside CryptoCore::decrypt/encrypt are replaced by stand-ins here (rule B2); they are under contract as blocks in the Kani harnesses coreblocks::{decrypt,encrypt}_block_contract',
+        'ring AEAD verdict is an oracle',
+    ],
+    'not_decided': [
+        'totality of InitMsg::read_from, NodeInfo::decode, RotationMessage::read_from on arbitrary bytes (handshake-marker datagrams reach InitMsg::read_from before any signature check)',
+        'node level dispatch (GenericCloud::handle_net_message frame) - see unit cloud when claimed',
+        'observation (outside the quantifier of C08, sender holds a trusted key): a sealed datagram with EMPTY plaintext makes handle_message call take_prefix on an empty buffer, leaving start = end + 1; the next MsgBuffer::len()/message() underflows/panics',
+    ],
+}
+
+CLB = 'cloud::__verif_cloudblocks::'
+PROPS['C13'] = {
+    'level': 'proof',
+    'level_text': 'Proof of the three per-function ingredients of switch learning: (1) Frame::parse yields the per-VLAN key (8-byte vid||mac for a 12-bit VLAN id != 0, 6-byte mac for untagged AND priority-tagged frames, PCP/DEI and nested tags ignored) for every frame (Kani, full content); (2) the learned entry is ClaimTable::cache (last writer wins, expires after the switch timeout, removed by housekeep when expired and by remove_claims when the peer goes) (Verus); (3) the mode table: learning exactly for switch (and normal/tap), never for hub/router (Kani block). The call site `if self.learning { self.table.cache(src, peer) }` is under contract in unit cloud (C10).',
+    'verus': [{'unit': 'table', 'fns': ['ClaimTable::cache', 'ClaimTable::housekeep', 'ClaimTable::remove_claims', 'ClaimTable::lookup', 'ClaimTable::new', 'lemma_.*']},
+              {'unit': 'cloud', 'fns': ['GenericCloud::handle_payload_from', 'GenericCloud::handle_message']}],
+    'native_search': {r'table::.*': TABLE_MODEL},
+    'kani': {
+        'files': {'src/payload.rs': ['kani/payload.rs'], 'src/cloud.rs': ['kani/cloudblocks.rs.in']},
+        'harnesses': [
+            K(PAY, 'frame_parse_len_le_1600', 'Frame::parse: learning key = 12-bit VLAN id || MAC; VLAN 0 and untagged give the bare MAC; all 65536 TCI values; nested tags ignored', fns=['payload::Frame::parse']),
+            K(CLB, 'mode_table_matches_documentation', 'GenericCloud::new mode block: learning iff switch or normal/tap; hub and router never learn', fns=['cloud::GenericCloud::new (block: mode table)']),
+            K(CLB, 'table_gets_switch_and_peer_timeouts', 'GenericCloud::new: the table is built with (switch_timeout, peer_timeout)', fns=['cloud::GenericCloud::new (block: ClaimTable::new arguments)']),
+        ],
+    },
+    'trusted': TABLE_TRUSTED,
+    'not_decided': ['multi-node histories (frames interleaved with time steps and disconnects across 3-4 nodes): only the per-operation contracts are proved; their composition over histories is by induction on the table view, not machine-checked at node level'],
+}
+
+KEYS_DRV = {'file': 'native/keys_roundtrip.rs', 'attach': 'src/crypto/common.rs', 'test': 'printed_keys_are_accepted'}
+PROPS['C18'] = {
+    'level': 'proof',
+    'level_text': 'Proof (Verus, unbounded lengths) that the text codec is value-exact: base62_add_mult_16, to_base62 and from_base62 verbatim against positional-value specs (text value == big-endian byte value, canonical forms, first bad character), and that Crypto::{decode_key, parse_public_key, parse_private_key, parse_keypair} accept the text of EVERY 32-byte string (also with leading zero bytes) and hand exactly those bytes to the key constructor. ring key objects and PBKDF2 are uninterpreted functions.',
+    'verus': [{'unit': 'base62', 'fns': ['(?!lemma_roundtrip_any_body).*']}],
+    'native_search': {r'base62::Crypto::.*': KEYS_DRV},
+    'trusted': [
+        'ring: Ed25519KeyPair::from_seed_unchecked / from_seed_and_public_key as uninterpreted functions of the seed (accept exactly 32-byte seeds; public key is a function of the seed)',
+        'std contracts written in the unit: <[T]>::reverse, <[T]>::clone_from_slice, String::with_capacity; R5 pinned statement `buf[0..buflen].reverse();`',
+        'str::chars / String::push / Vec specs of vstd',
+    ],
+    'not_decided': [
+        'generate_keypair / keypair_from_password determinism (same PBKDF2 term) - reading only: both call pbkdf2::derive(PBKDF2_HMAC_SHA256, 4096, SALT, password) and Ed25519KeyPair::from_seed_unchecked; ring/pbkdf2 calls are not typed by Verus',
+        'that nodes sharing a password complete a handshake (C01/C05)',
+    ],
+}
+
+PROPS['C17'] = {
+    'level': 'proof',
+    'level_text': 'Partial. Proved (Verus, unbounded lengths): the text codec to_base62/from_base62 is value-exact, so a body that does not start with a zero byte survives the text form; mask_with_keystream is an involution for every body length (SHA-512 as uninterpreted function) and never faults. Proved (Kani, all 2^48 triples): the age window is the cyclic distance of the hour stamps in either direction. Known finding: bodies starting with 0x00 are not recovered. NOT decided: finding the markers inside arbitrary text (str::find / slicing), peerlist_decode parsing, different passwords.',
+    'verus': [{'unit': 'base62', 'fns': ['base62_add_mult_16', 'to_base62', 'from_base62', 'lemma_.*']}, {'unit': 'beacon'}],
+    'kani': {
+        'files': {'src/beacon.rs': ['kani/beaconblocks.rs.in']},
+        'harnesses': [K('beacon::__verif_beaconblocks::', 'beacon_age_window_is_cyclic_distance', 'age test of peerlist_decode: rejected <=> cyclic distance of the 16-bit hour stamps > ttl, in either direction; all 2^48 triples', fns=['beacon::BeaconSerializer::peerlist_decode (block: age test)'])],
+    },
+    'native_search': {'base62::lemma_roundtrip_any_body': {'file': 'native/beacon_roundtrip.rs', 'attach': 'src/beacon.rs', 'test': 'beacons_round_trip_for_every_hour'},
+                      r'beacon::BeaconSerializer::mask_with_keystream': {'file': 'native/beacon_long_text.rs', 'attach': 'src/beacon.rs', 'test': 'long_beacon_bodies_do_not_panic'}},
+    'trusted': [
+        'SHA-512 key stream as an uninterpreted function ks(password, type, seed, block) of length 64; R6: SmallVec<[u8;64]> modelled by Vec<u8>',
+        'std contracts written in the units: <[T]>::reverse, String::with_capacity; R5 pinned `buf[0..buflen].reverse();`',
+    ],
+    'not_decided': [
+        'marker search in arbitrary text (BeaconSerializer::decode: str::find, sanitising, several beacons per text, overlapping begin/end markers)',
+        'peerlist_encode / peerlist_decode field layout (SmallVec, SocketAddr constructors, Wrapping)',
+        'rejection of beacons made with a different password (1-byte seed check)',
+    ],
+}
+
+CLOUD_TRUSTED = [
+    'observable effects are modelled by two ghost logs (Device::written, Socket::sent) appended by Device::write / Socket::send; the traits are declared in the unit with exactly these contracts',
+    'opaque environment with ASSUMED frames (not typed by Verus: format!, hooks, HashMap iteration, SmallVec): GenericCloud::{add_new_peer, update_peer_info, remove_peer, connect_sock, broadcast_msg} do not write to the interface; remove_peer sends nothing',
+    'ASSUMED: PeerCrypto::handle_message never reports a handshake datagram as Message(_) (reading of handle_init_message)',
+    'HashMap<SocketAddr,_> through the vstd model (obeys_key_model::<SocketAddr>, builds_valid_hashers as axioms); HashMap::get_mut contract written in the unit',
+    'R4: GenericCloud/PeerData pruned to the fields the dispatch functions use; R1: self.config.call_hook(..) statement and log macros dropped; R5: NodeInfo::decode(Cursor::new(..)) replaced by an opaque call',
+]
+PROPS['C10'] = {
+    'level': 'proof',
+    'level_text': 'Proof (Verus, functions verbatim, environment opaque) of the isolation frame conditions: a payload received from a peer causes no datagram to leave the node (no relaying) and at most one interface write, byte-identical to the payload; only the DATA arm of handle_message writes to the interface; datagrams from addresses that are neither peers nor in a handshake never reach the interface, and if they are not handshake messages change nothing but counters; frames read from the own interface are never written back to it; send_msg sends nothing to a non-peer and at most one datagram, to the selected peer. NOT decided: exactly-once delivery to every selected peer (broadcast loop over a HashMap), byte-identity across the AEAD.',
+    'verus': [{'unit': 'cloud'}],
+    'trusted': CLOUD_TRUSTED,
+    'not_decided': [
+        'exactly-once delivery to every selected peer and to no other (GenericCloud::broadcast_msg iterates a HashMap: no iterator spec in this Verus)',
+        'byte-identical delivery end to end (crosses PeerCrypto::send_message / handle_message: buffer geometry is under C08, AEAD is an oracle)',
+        'control traffic (handshake replies, node info, connect attempts) is outside the claim: update_peer_info / add_new_peer may send',
+    ],
+}
+
 NOT_APPLICABLE = {
     'C01': 'needs Ed25519 unforgeability plus InitMsg::read_from / InitState::handle_init, which neither back end reaches (150-line TLV parser over Cursor/SmallVec; ring key objects); no contract within reach expresses it',
     'C05': 'all-schedules agreement and recovery of two retransmitting state machines plus a liveness bound: a protocol-level joint invariant and liveness, outside per-function contracts',
